@@ -20,6 +20,8 @@ _META = re.compile(r'^_[A-Z][A-Za-z0-9]*$')
 
 def _parse(src):
     tree = ast.parse(src)
+    from .model import normalise_tree
+    normalise_tree(tree, whole=True, temps=False)
     if len(tree.body) == 1 and isinstance(tree.body[0], ast.Expr) and \
             not (isinstance(tree.body[0].value, ast.Constant) and
                  tree.body[0].value.value is Ellipsis):
@@ -76,6 +78,19 @@ def _match(p, n, b):
     if not isinstance(p, ast.AST):
         return p == n
     if type(p) is not type(n):
+        return False
+    if isinstance(p, ast.Compare) and len(p.ops) == 1 and \
+            len(n.ops) == 1 and isinstance(p.ops[0], (ast.Eq, ast.NotEq)) \
+            and type(p.ops[0]) is type(n.ops[0]):
+        # == and != are symmetric: try both orientations
+        for nl, nr in ((n.left, n.comparators[0]),
+                       (n.comparators[0], n.left)):
+            b2 = dict(b)
+            if _match(p.left, nl, b2) and \
+                    _match(p.comparators[0], nr, b2):
+                b.clear()
+                b.update(b2)
+                return True
         return False
     wild_call = isinstance(p, ast.Call) and any(
         _is_ellipsis_expr(a) for a in p.args)
